@@ -127,11 +127,10 @@ impl SetSketchParams {
         let jsup = (b_aux * b_aux - 1.) / (self.b - 1.);
         //
         let b_inf = 2. * (b_aux * self.b.sqrt() - 1.) / (self.b - 1.) - 1.;
-        let jinf = b_inf.max(0.);
+        // mathematically b_inf <= jsup, rounding can invert them by a few ulps for jac near 1
+        let jinf = b_inf.max(0.).min(jsup);
         //
         log::debug!("b_inf : {:.5e}, b_aux : {:.3e}", b_inf, b_aux);
-        //
-        assert!(jac >= 1. || jinf <= jsup);
         //
         (jinf, jsup)
     }
